@@ -200,6 +200,15 @@ func (r *Recorder) IsKnown(sig string) bool {
 // anything else is written as a replay file and fails the test.
 func (r *Recorder) Report(t Fataler, kind, sig, detail string, c interface{}) bool {
 	if r.IsKnown(sig) {
+		r.mu.Lock()
+		if _, ok := r.notes["known:"+sig]; !ok {
+			d := detail
+			if len(d) > 1500 {
+				d = d[:1500]
+			}
+			r.notes["known:"+sig] = d
+		}
+		r.mu.Unlock()
 		return false
 	}
 	r.mu.Lock()
